@@ -10,7 +10,7 @@
 (* the conformance harness replays through the real library.  Invariants   *)
 (* on the model itself: shape/denotation consistency, involution laws.     *)
 (***************************************************************************)
-EXTENDS Expr, PyIndex, Annot, Catalog, Json, TLC
+EXTENDS Expr, PyIndex, Annot, Spectral, Catalog, Json, TLC
 
 CONSTANTS MaxLvl,      \* number of combinator applications
           MaxDim,      \* bound on rows and on columns of every tree
@@ -48,7 +48,7 @@ Unary(x) ==
                                   /\ FormOK(SliceForms[ij[1]], s[1]) /\ FormOK(SliceForms[ij[2]], s[2])
                                   /\ (ij[1] + ij[2] + s[1]) % SliceStride = 0}}
           ELSE {})
-    \cup (IF "Annot" \in Acts
+    \cup (IF "Annot" \in Acts /\ ShapeOf(x)[1] <= 4 /\ ShapeOf(x)[2] <= 4   \* (exact PSD test: 2^n minors)
           THEN {N("Annot", <<x>>, [ann |-> a]): a \in {b \in AnnNames: Holds(b, Denote(x))}} ELSE {})
     \cup (IF "Gram" \in Acts
           THEN {N("GramT", <<x>>, NoP), N("GramH", <<x>>, NoP), N("GramHr", <<x>>, NoP)} ELSE {})
@@ -133,8 +133,19 @@ LinalgOut ==
         det |-> Det(d), singular |-> (dn = CZ), nonsing |-> nz, pd |-> IsPD(d),
         inv |-> IF nz THEN MInverse(d) ELSE Zero(1, 1)]
 
+\* exact spectral decomposition (verified against Denote by SpecInv) for C09 / C10
+SpectralOut ==
+    LET d == Denote(t)
+        s == SpecOf(t)
+        herm == IsHermitian(d)
+        psd == herm /\ \A i \in 1..Len(s): s[i].lam.n[2] = 0 /\ s[i].lam.n[1] >= 0
+    IN [t |-> t, wf |-> TRUE, dense |-> d, dt |-> DTypeOf(t), lvl |-> lvl,
+        true_anns |-> (IF herm THEN {"SelfAdjoint"} ELSE {}) \cup (IF psd THEN {"PSD"} ELSE {}),
+        spec |-> [i \in 1..Len(s) |-> [lam |-> s[i].lam, P |-> MNormalize(s[i].P), mult |-> Mult(s[i])]]]
+
 Out == IF WellFormed(t)
-       THEN IF "linalg" \in Acts /\ ShapeOf(t)[1] = ShapeOf(t)[2] /\ ShapeOf(t)[1] <= 4 THEN LinalgOut
+       THEN IF "spectral" \in Acts /\ HasSpec(t) THEN SpectralOut
+            ELSE IF "linalg" \in Acts /\ ShapeOf(t)[1] = ShapeOf(t)[2] /\ ShapeOf(t)[1] <= 4 THEN LinalgOut
             ELSE IF "anns" \in Acts
             THEN LET d == Denote(t) IN
                  [t |-> t, wf |-> TRUE, dense |-> d, dt |-> DTypeOf(t), lvl |-> lvl,
@@ -148,6 +159,8 @@ Emit == IF DoEmit THEN PrintT(ToJson(Out)) ELSE TRUE
 \* model-level sanity: the shape calculus agrees with the denotation
 ShapeConsistent == WellFormed(t) => LET d == Denote(t) IN <<d.r, d.c>> = ShapeOf(t)
 \* transposing / taking the adjoint twice is the identity on denotations
+\* the structural spectral decomposition is a spectral decomposition of the denoted matrix
+SpecInv == ("spectral" \in Acts /\ WellFormed(t) /\ HasSpec(t)) => SpectralValid(t)
 \* the modelled inference never reports a false annotation (known to fail: see known_findings.json, C05)
 InferSound == (WellFormed(t) /\ CtorOnly(t)) => Unsound(t) = {}
 Involution == WellFormed(t) => /\ MEq(MTr(MTr(Denote(t))), Denote(t))
